@@ -732,6 +732,19 @@ def check_C18(ctx, w):
                        "fields": ["K", "S"] + g.flds[:1]})
     seq_pipeline(ctx, w, gt, ["Conf_C01", "Conf_C02", "Conf_C03", "Conf_C04", "Conf_C13", "Conf_C18"], label="golden")
     ctx.extra_cov["golden_directories"] = len(set(t["adopt"] for t in gt))
+    # directory names of 10 collection types with awkward names (acronyms, digits, underscore, non-ASCII) x LowercaseNames,
+    # compared by TLC with the names the pinned release gives them (golden/names.json)
+    nd = w.sub("names")
+    vlib.sh([binp, "names", "-out", os.path.join(nd, "got.json"), "-work", nd], timeout=120)
+    got = json.load(open(os.path.join(nd, "got.json")))
+    want = json.load(open(os.path.join(vlib.VERIF, "golden", "names.json")))
+    tp = os.path.join(nd, "names.ndjson")
+    vlib.write_ndjson(tp, [{"ev": "reset", "id": "names"}, {"ev": "names", "got": got, "want": want}, {"ev": "end"}])
+    fl, st, _, _ = vlib.validate_trace(tp, ["NoPanic", "Conf_C18"], w.sub("val-names"))
+    ctx.trace_states += st
+    ctx.extra_cov["type_names_checked"] = len(want)
+    for f in fl:
+        record_failure(ctx, w, f, None, ["Conf_C18"], "SodTrace")
 
 
 def check_C19(ctx, w):
